@@ -14,8 +14,8 @@ RULE = ("scenes from the seed, each built in all three cyclic orientations throu
         "steps: 4..8 cells per axis (pairwise different where possible), per face none/periodic/pec/pmc/pml (PML "
         "thickness 2..3, optional kappa grading), uniform or non-uniform grid (widths rotated), 1..2 sources out of "
         "UniformPlaneSource / GaussianPlaneSource (every propagation axis, both directions, oblique transverse "
-        "polarisation vector rotated) and PointDipoleSource (electric/magnetic, polarisation index and position "
-        "rotated) with CW or pulse profile, FieldDetector and PoyntingFluxDetector without exact interpolation "
+        "polarisation vector rotated, non-zero azimuth_angle / elevation_angle of both signs: unchanged by the relabelling) and PointDipoleSource (electric/magnetic, polarisation index and position "
+        "rotated, tilted by azimuth/elevation as well) with CW or pulse profile, FieldDetector and PoyntingFluxDetector without exact interpolation "
         "(sub-boxes, reduce_volume on/off, keep_all_components, fixed_propagation_axis), materials overwritten by "
         "rotated random arrays (isotropic, diagonal, or full 9-component tensors rotated as R T R^T; optional sigma_E / "
         "sigma_H, incl. full 9-component conductivity tensors with all off-diagonals non-zero next to full inv_eps / inv_mu) or built through the public Material API and placed as UniformMaterialObject boxes (no overwrite): "
@@ -28,7 +28,11 @@ RULE = ("scenes from the seed, each built in all three cyclic orientations throu
         "with the model on the arrays place_objects produced); a tiny scene with full-tensor Materials with a lone "
         "off-diagonal entry in permittivity, sigma_E, sigma_H. Oracle: max |rot^-r(result_r) "
         "- result_0| <= 1e-9 * max|result| for E, H and every raw record (run_fdtd resets the fields, so levels are set by the sources). K: forward() of each orientation of "
-        "PML-free scenes (tiers <= 3) vs model fwd / rotfwd, Poynting record vs rotpoynting. non-trivial = every scene "
+        "PML-free scenes (tiers <= 3) vs model fwd / rotfwd, Poynting record vs rotpoynting; scenes with PML (quick: the first one): forward() incl. "
+        "the psi arrays of every PML vs the Lean CPML model applied to the Lean-relabelled request of the previous "
+        "orientation (op rotpmlfwd; random diagonal-tier materials, fields, psi); exhaustively over the three "
+        "axes get_oriented_transverse_axes / get_transverse_axes vs the model (hvp / ascending) and the cyclic relabelling of "
+        "tilted_polarization_vectors (random azimuth/elevation of both signs, both directions, E- or H-given polarisation). non-trivial = every scene "
         "(all have sources and a non-cubic shape or distinct faces).")
 
 FACES = Y.FACES
@@ -175,6 +179,12 @@ def gen_case(rng, thorough, force=None):
             s["use_h"] = rng.chance(0.25)
         else:
             s["pol"] = rng.randint(0, 2)
+        # tilt: azimuth / elevation (degrees) rotate polarisation and wave vector about the (horizontal, vertical,
+        # propagation) = (a+1, a+2, a) triple of the source; a cyclic relabelling shifts the whole triple, so the ANGLES stay
+        # the same in every orientation — any axis-dependent choice of the triple shows up as broken equivariance
+        tilt = force.get("tilt", rng.chance(0.6))
+        s["azimuth"] = rng.uniform(8.0, 35.0) * rng.choice([1.0, -1.0]) if tilt else 0.0
+        s["elevation"] = rng.uniform(8.0, 35.0) * rng.choice([1.0, -1.0]) if tilt else 0.0
         srcs.append(s)
     c["sources"] = srcs
     dets = []
@@ -346,7 +356,8 @@ def build(c):
             shp = [None, None, None]
             shp[ax] = 1
             kw2 = dict(partial_grid_shape=tuple(shp), wave_character=wave, direction=s["direction"], temporal_profile=prof,
-                       static_amplitude_factor=s["amp"], name=f"src{i}")
+                       static_amplitude_factor=s["amp"], name=f"src{i}", azimuth_angle=s.get("azimuth", 0.0),
+                       elevation_angle=s.get("elevation", 0.0))
             if s.get("use_h"):
                 kw2["fixed_H_polarization_vector"] = tuple(s["pol"])
             else:
@@ -356,7 +367,8 @@ def build(c):
         else:
             o = f.PointDipoleSource(partial_grid_shape=(1, 1, 1), wave_character=wave, polarization=s["pol"],
                                     source_type="electric" if s["kind"] == "dipole_e" else "magnetic",
-                                    temporal_profile=prof, static_amplitude_factor=s["amp"], name=f"src{i}")
+                                    temporal_profile=prof, static_amplitude_factor=s["amp"], name=f"src{i}",
+                                    azimuth_angle=s.get("azimuth", 0.0), elevation_angle=s.get("elevation", 0.0))
             cs.append(place(o, (0, 1, 2), s["pos"]))
         objs.append(o)
     for i, q in enumerate(c["detectors"]):
@@ -620,6 +632,76 @@ def k_model(ctx, c0, per):
                              floor=max(1e-30, float(np.max(np.abs(S)))))
 
 
+def face_of(p):
+    return ("min_" if p.direction == "-" else "max_") + "xyz"[p.axis]
+
+
+def k_model_pml(ctx, c0, per):
+    """scenes with PML layers: forward() of orientation r+1 (fields AND the psi arrays of every PML) vs the Lean CPML model
+    applied to the Lean-relabelled request of orientation r (op rotpmlfwd; r = 0, 1, 2 closes the cycle). Materials of
+    this step are random diagonal-tier arrays (the CPML model sits on the diagonal Yee tier), fields and psi random."""
+    from . import cpml_api as CP
+    j = Y.J()
+    jnp = j["jnp"]
+    from fdtdx.fdtd.update import update_E, update_H
+    r0 = np.random.default_rng(c0["seed"] + 17)
+    nx, ny, nz = c0["shape"]
+    base = {"E": r0.standard_normal((3, nx, ny, nz)), "H": r0.standard_normal((3, nx, ny, nz)),
+            "ie": r0.uniform(0.2, 1.0, (3, nx, ny, nz)), "im": r0.uniform(0.4, 1.0, (3, nx, ny, nz))}
+    sc0 = per[0][0]
+    psi0 = {face_of(p): [r0.standard_normal(p.grid_shape) for _ in range(4)] for p in CP.pml_list(sc0)}
+    data = []
+    for r in range(3):
+        sc, c, a, _ = per[r]
+        cur = {k: v for k, v in base.items()}
+        psi = {k: list(v) for k, v in psi0.items()}
+        for _ in range(r):
+            cur = {"E": rot_vec(cur["E"]), "H": rot_vec(cur["H"]), "ie": rot_arr(cur["ie"]), "im": rot_arr(cur["im"])}
+            psi = {rot_face(k): [np.transpose(x, (2, 0, 1)) for x in v] for k, v in psi.items()}
+        pmls = CP.pml_list(sc)
+        psiE = {p.name: tuple(jnp.asarray(x) for x in psi[face_of(p)][:2]) for p in pmls}
+        psiH = {p.name: tuple(jnp.asarray(x) for x in psi[face_of(p)][2:]) for p in pmls}
+        def plain(arr):
+            """this K step runs on the lossless diagonal tier of the CPML model: drop conductivity arrays that placed
+            Material boxes may have allocated (they belong to the oracle and to k_model)"""
+            for name in ("electric_conductivity", "magnetic_conductivity"):
+                if getattr(arr, name) is not None:
+                    arr = arr.aset(name, None)
+            return arr
+        arrays = CP.with_psi(plain(Y.with_state(sc, cur["E"], cur["H"], cur["ie"], cur["im"])), psiE, psiH)
+        st = Y.impl_forward(sc, arrays, t=1, n=1)
+        out = {"E": np.asarray(st[1].fields.E), "H": np.asarray(st[1].fields.H),
+               "psi": {face_of(p): [np.asarray(x) for x in (*st[1].fields.psi_E[p.name], *st[1].fields.psi_H[p.name])] for p in pmls}}
+        zpsiE = {p.name: tuple(jnp.zeros(p.grid_shape) for _ in range(2)) for p in pmls}
+        zero = CP.with_psi(plain(Y.with_state(sc, np.zeros_like(cur["E"]), np.zeros_like(cur["H"]), cur["ie"], cur["im"])), zpsiE, zpsiE)
+        tt = jnp.asarray(1, dtype=jnp.int32)
+        jE = np.asarray(update_E(tt, zero, sc.objects, sc.config, True).fields.E)
+        jH = np.asarray(update_H(tt, zero, sc.objects, sc.config, True).fields.H)
+        line = " ".join(["rotpmlfwd", "1"] + CP.pmls_tokens(sc, psiE, psiH)) + " " + CP.yee_tail(sc, cur["E"], cur["H"], cur["ie"], cur["im"], (jE, jH))
+        data.append((sc, c, [face_of(p) for p in pmls], [CP.box_of(p) for p in pmls], line, out))
+    from .common import h2f
+    for r in range(3):
+        sc, c, faces_r, boxes_r, line, _ = data[r]
+        nxt = data[(r + 1) % 3]
+        vals = np.array([h2f(x) for x in ctx.driver.ask(line).split()], dtype=np.float64)
+        shp = tuple(nxt[1]["shape"])
+        n = 3 * shp[0] * shp[1] * shp[2]
+        mE, mH = vals[:n].reshape((3,) + shp), vals[n:2 * n].reshape((3,) + shp)
+        ctx.expect_close(f"forward with PML, orientation {(r + 1) % 3} vs model rot(request of orientation {r})", c0,
+                         np.concatenate([nxt[5]["E"].ravel(), nxt[5]["H"].ravel()]), np.concatenate([mE.ravel(), mH.ravel()]))
+        pos = 2 * n
+        for face, b in zip(faces_r, boxes_r):
+            rb = (b[5] - b[4], b[1] - b[0], b[3] - b[2])                 # relabelled box extents
+            v = rb[0] * rb[1] * rb[2]
+            impl = nxt[5]["psi"][rot_face(face)]
+            for q in range(4):
+                m = vals[pos:pos + v].reshape(rb)
+                pos += v
+                ctx.expect_close(f"psi[{q}] of {rot_face(face)} in orientation {(r + 1) % 3} vs model rot", c0, impl[q].ravel(), m.ravel())
+        ctx.expect_equal("model reply length (PML)", c0, int(vals.size), pos)
+    ctx.dist.setdefault("pml_model_compared", {"True": 0})["True"] += 1
+
+
 # --------------------------------------------------------------------------------------------------- driver
 def forced(rng):
     a = rng.randint(0, 2)
@@ -633,14 +715,14 @@ def forced(rng):
     p3 = rng.shuffle([("pec", "pmc"), ("periodic", "periodic"), rng.choice([("none", "pmc"), ("pec", "none"), ("pmc", "pmc")])])
     p4 = rng.shuffle([("periodic", "periodic"), ("none", "none"), rng.choice([("pec", "none"), ("none", "pmc")])])
     return [
-        dict(pairs=p1, sources=["uniform", "dipole_e"], src_axis=[a, None], src_dir=["+", None], mat_mode="arrays",
+        dict(pairs=p1, sources=["uniform", "dipole_e"], src_axis=[a, None], src_dir=["+", None], mat_mode="arrays", tilt=True,
              eps_tier=9, sig_e_full=True, mu_tier=rng.choice([0, 3]), sig_h_full=False, nonuniform=False),
-        dict(pairs=p2, sources=["gauss", rng.choice(["dipole_e", "dipole_m"])], src_axis=[b, None], src_dir=["-", None],
+        dict(pairs=p2, sources=["gauss", rng.choice(["dipole_e", "dipole_m"])], src_axis=[b, None], src_dir=["-", None], tilt=True,
              mat_mode="arrays", eps_tier=rng.choice([1, 3]), sig_e_full=False, mu_tier=9, sig_h_full=True),
         # materials through the public Material API, diagonal tier (so the model comparison applies): a box with diagonal
         # permittivity and an electric conductivity whose ONLY non-zero entry is one diagonal component (which one: from the
         # seed; the three orientations put it on xx, yy and zz), and the magnetic analogue
-        dict(pairs=p3, sources=["dipole_e", "dipole_m"], mat_mode="boxes", boxes=["diag_sig_e", "diag_sig_h"],
+        dict(pairs=p3, sources=["dipole_e", "dipole_m"], mat_mode="boxes", boxes=["diag_sig_e", "diag_sig_h"], tilt=True,
              sig_e_full=False, sig_h_full=False, nonuniform=rng.chance(0.5), init_fields=True),
         # … and full-tensor Materials with a lone off-diagonal entry (permittivity, sigma_E, sigma_H), tiny scene
         dict(pairs=p4, sources=[rng.choice(["dipole_e", "dipole_m"])], mat_mode="boxes",
@@ -659,6 +741,8 @@ def counters(c):
         d["pml_kappa_graded"] = True
     for s in c["sources"]:
         d["src_" + s["kind"]] = True
+        if s.get("azimuth", 0.0) != 0.0:
+            d["src_" + s["kind"] + "_tilted"] = True
         if s["kind"] in ("uniform", "gauss"):
             d[f"plane_axis{s['axis']}{s['direction']}"] = True
     for q in c["detectors"]:
@@ -683,10 +767,51 @@ def one_scene(ctx, c0, sample=False):
         ctx.violation(c0, d)
     if model_ok(c0, results):
         k_model(ctx, c0, per)
+    has_pml = any(v == "pml" for v in c0["faces"].values())
+    if has_pml and (ctx.thorough or not ctx.extra.get("pml_k_done")):
+        ctx.extra["pml_k_done"] = True          # quick: the first PML scene only
+        k_model_pml(ctx, c0, per)
         ctx.dist.setdefault("model_compared", {"True": 0})["True"] += 1
 
 
+def k_axes(ctx):
+    """exhaustive over the three axes: the oriented-axes helpers vs the model, and the polarisation / wave-vector triple of
+    `tilted_polarization_vectors` (what every plane source and the Gaussian overlap detector build their tilt from) must be
+    relabelled cyclically when axis and polarisation are"""
+    j = Y.J()
+    jnp = j["jnp"]
+    from fdtdx.core.axis import get_oriented_transverse_axes, get_transverse_axes
+    from fdtdx.core.misc import tilted_polarization_vectors
+    for a in range(3):
+        ctx.expect_equal("get_oriented_transverse_axes + axis vs model hvp", {"axis": a},
+                         " ".join(str(int(x)) for x in (*get_oriented_transverse_axes(a), a)), ctx.driver.ask(f"hvp {a}"))
+        ctx.expect_equal("get_transverse_axes vs model ascending", {"axis": a},
+                         " ".join(str(int(x)) for x in get_transverse_axes(a)), ctx.driver.ask(f"ascending {a}"))
+    for _ in range(ctx.scale(4, 40)):
+        az, el = (ctx.rng.uniform(0.1, 0.7) * ctx.rng.choice([1.0, -1.0]) for _ in range(2))
+        th = ctx.rng.uniform(0.0, 6.28)
+        d = ctx.rng.choice(["+", "-"])
+        use_h = ctx.rng.chance(0.3)
+        outs = []
+        for a in range(3):
+            pol = [0.0, 0.0, 0.0]
+            pol[(a + 1) % 3], pol[(a + 2) % 3] = float(np.cos(th)), float(np.sin(th))
+            kw = {"fixed_H_polarization_vector" if use_h else "fixed_E_polarization_vector": tuple(pol)}
+            e, h, k = tilted_polarization_vectors(direction=d, propagation_axis=a, azimuth_radians=az, elevation_radians=el,
+                                                  dtype=jnp.float64, **kw)
+            vec = np.stack([np.asarray(e), np.asarray(h), np.asarray(k)])          # (3 vectors, 3 components)
+            for _ in range((3 - a) % 3):                                         # back to the labelling of axis 0
+                vec = vec[:, [2, 0, 1]]
+            outs.append(vec)
+        case = {"tilted_polarization_vectors": True, "azimuth": az, "elevation": el, "direction": d, "theta": th, "use_h": use_h}
+        for a in (1, 2):
+            ctx.expect_close(f"tilted_polarization_vectors: axis {a} relabelled back vs axis 0", case, outs[a].ravel(), outs[0].ravel(),
+                             tol=1e-12)
+        ctx.case(nontrivial=("tilt", round(az, 6), round(el, 6), d), tilt_helper=True)
+
+
 def run(ctx):
+    k_axes(ctx)
     cases = [gen_case(ctx.rng, ctx.thorough, f) for f in forced(ctx.rng)]
     n = ctx.scale(4, 24)
     while len(cases) < n:
